@@ -3,6 +3,7 @@ import Dreye.Driver.Ops01
 import Dreye.Driver.Ops02
 import Dreye.Driver.Ops20
 import Dreye.Driver.Ops19
+import Dreye.Driver.Ops16
 namespace Dreye.Driver
-def allOps : List (String × Handler) := ops01 ++ ops02 ++ ops20 ++ ops19
+def allOps : List (String × Handler) := ops01 ++ ops02 ++ ops20 ++ ops19 ++ ops16
 end Dreye.Driver
